@@ -401,9 +401,12 @@ def bp2(img, threshold):
                     if not t.depends_on(Sym("ref")) and not t.depends_on(Sym("im")):
                         off = off + t
                 n = Rat.sym("shape(im)[%d]" % axis, ("int", "size"))
-                want_off = -(n / 2) * (Rat.sym("padding") - 1)
+                # zero lag of the fftshift-ed padded correlation is at (n p) // 2; referring it to the centre n // 2 of the
+                # unpadded frame for every padding means removing the difference (n / 2 (p - 1) only when n p and n are even)
+                pad_ = Rat.sym("padding")
+                want_off = -(Rat.atom(Fn("floordiv", (n * pad_, Rat.const(2)))) - Rat.atom(Fn("floordiv", (n, Rat.const(2)))))
                 n_ok += 1
-                rep.check(same_value(off, want_off), "H5.padding-offset", "%s[store %d]: %s offset == n/2*(padding-1) on axis %d"
+                rep.check(same_value(off, want_off), "H5.padding-offset", "%s[store %d]: %s offset == (n*padding)//2 - n//2 on axis %d"
                           % (f.fq, (n_ok + 1) // 2, label, axis),
                           "offset removed from the %s centroid is %s, expected %s" % (label, nf(off), nf(want_off)), f.where())
     if n_ok < 4:
